@@ -230,6 +230,7 @@ func (e *Enc) applyContract(ct *Contract, guard string, vars map[string]Term, rt
 		res = append(res, r)
 	}
 	envPost := &Env{w: w, pkg: calleePkg, vars: nv, pre: pre, cur: e.cur, W0: pre.W, decl: e.declare, useMem: e.useMem, ghost: e.ghost}
+	e.applyGhostSets(ct, envPost, guard)
 	for _, en := range ct.Ensures {
 		var g string
 		func() {
@@ -567,6 +568,9 @@ func (e *Enc) intrinsic(key string, callee *ssa.Function, c *ssa.CallCommon, pos
 		}
 		s := e.term(c.Args[1])
 		return []Term{{e.define(e.fresh("match"), "Bool", "(str.in_re "+s.S+" "+re+")"), "Bool", boolT}}, true
+	case "strings.Contains":
+		a, b := e.term(c.Args[0]), e.term(c.Args[1])
+		return []Term{{e.define(e.fresh("contains"), "Bool", "(str.contains "+a.S+" "+b.S+")"), "Bool", boolT}}, true
 	case "regexp.MustCompile":
 		if !e.isInit {
 			return nil, false
